@@ -177,6 +177,7 @@ def run(ctx):
     kinds, nontrivial, dist = {}, set(), {}
     stats = {"seen": 0, "gone": 0, "hi": 0, "lat_max": 0.0, "retried_timed": 0}
     n_viol = 0
+    pending_viol = []
     for i, s in enumerate(scripts):
         res = results.get(i)
         fam = s["kind"]
@@ -203,10 +204,13 @@ def run(ctx):
             n_viol += 1
             replay = {"script": s, "model": model[i][:4000], "observed": res.get("observed", [])[-6:], "cmd": "python3 tools/check.py C10 --replay <this file>"}
             if kind == "violation":
-                rep.violation("[%s] %s" % (fam, text), replay)
+                pending_viol.append((0, "[%s] %s" % (fam, text), replay, True))
             else:
                 replay["names"] = "correspondence harness/py/robust_run.py (dbus-daemon) vs Robust.Env/Robust.Bus (extracted)"
-                rep.violation("[%s] daemon and model disagree: %s" % (fam, text), replay, found_input=False)
+                pending_viol.append((1, "[%s] daemon and model disagree: %s" % (fam, text), replay, False))
+    # property breaches with a concrete input first (the report shows only the first few)
+    for _, text, replay, found in sorted(pending_viol, key=lambda v: v[0]):
+        rep.violation(text, replay, found_input=found)
     for d in daemons:
         if (d["san"] or d["rc"] not in (0, None) or not d["alive"]) and not d.get("reported") and not any(D1_TEXT in x for x in d["san"]):
             # the script after which it happened has its own entry if it was noticed; report the log in any case
